@@ -445,6 +445,11 @@ pub struct StreamCase {
     /// a stop command for the time limit is sent once the script has created the file `ready`
     #[serde(default)]
     pub stop_timeout: bool,
+    /// the stop may end a helper before it wrote everything (how far it gets within the
+    /// product's grace period depends on the machine): the stream must hold a prefix of the
+    /// expected output, and be finished
+    #[serde(default)]
+    pub prefix_ok: bool,
 }
 
 pub fn stream_cases() -> Vec<StreamCase> {
@@ -455,6 +460,7 @@ pub fn stream_cases() -> Vec<StreamCase> {
         stderr: stderr.into(),
         ok,
         stop_timeout: false,
+        prefix_ok: false,
     };
     let mut v = vec![
         c("output-exit0", "printf abc; printf err >&2; exit 0", "abc", "err", true),
@@ -474,6 +480,7 @@ pub fn stream_cases() -> Vec<StreamCase> {
     // signal) while a helper still holds the pipes and writes later
     v.push(StreamCase {
         stop_timeout: true,
+        prefix_ok: true,
         ..c(
             "time-limit-after-exit-helper-holds-pipe",
             "printf a; (while kill -0 $$ 2>/dev/null; do sleep 0.02; done; touch ready; sleep 0.6; printf late; printf elate >&2) & exit 0",
@@ -636,7 +643,11 @@ pub fn run_stream(report: &mut Report) -> Vec<String> {
                         "launcher-stream-not-finished",
                         format!("the task ended ({}), its stream was flushed, but the reader {} (script: {})", if c.ok { "finished" } else { "failed" }, if o.in_index { "says the stream is unfinished" } else { "does not know the task" }, c.script),
                     ));
-                } else if o.stdout != c.stdout || o.stderr != c.stderr {
+                } else if if c.prefix_ok {
+                    !c.stdout.starts_with(&o.stdout) || !c.stderr.starts_with(&o.stderr)
+                } else {
+                    o.stdout != c.stdout || o.stderr != c.stderr
+                } {
                     report.add_violation(mk(
                         "launcher-stream-bytes",
                         format!("the task wrote stdout {:?} stderr {:?}, the stream directory returns stdout {:?} stderr {:?} (script: {})", c.stdout, c.stderr, o.stdout, o.stderr, c.script),
@@ -670,7 +681,12 @@ pub fn replay_stream(v: &serde_json::Value) -> i32 {
         }
         Ok(o) => {
             println!("case {}: {:?} (expected stdout {:?} stderr {:?} finished)", c.name, o, c.stdout, c.stderr);
-            let bad = !o.in_index || !o.finished || o.stdout != c.stdout || o.stderr != c.stderr;
+            let content_bad = if c.prefix_ok {
+                !c.stdout.starts_with(&o.stdout) || !c.stderr.starts_with(&o.stderr)
+            } else {
+                o.stdout != c.stdout || o.stderr != c.stderr
+            };
+            let bad = !o.in_index || !o.finished || content_bad;
             println!("{}", if bad { "REPRODUCED" } else { "NOT REPRODUCED" });
             if bad { 1 } else { 0 }
         }
